@@ -639,7 +639,111 @@ def _seeded_cases(tier, seed):
                'style': rng.choice(['full', 'min']), 'tag': 'seeded-%d-%d' % (seed, ci)}
 
 
+# ---------------------------------------------------------------------------------------------
+# one transformer / matcher OBJECT applied to several texts by ONE instruction
+# (`dir-contents d : every file : contents -transformed-by T ( run % PROBE ... )` and `... : -selection contents M`):
+# nothing may be carried over from one application to the next
+# ---------------------------------------------------------------------------------------------
+_MULTI_TEXTS = [['a\nb\n', 'b\na\nab\n', '', 'a', ' a \n\nb'], ['ab\n' * 4, 'b\n', 'a\nb\nc\nd\ne\n'],
+                ['x\n', 'a b\n', 'A\nB\n', 'ba\nab\n\n']]
+
+
+def _multi_cases(tier, seed):
+    n = 0
+    for gi, texts in enumerate(_MULTI_TEXTS):
+        ts = core_transformers(texts[0], gi)
+        for k, tr in enumerate(ts):
+            if tier == 'quick' and (k + gi) % 2:
+                continue
+            n += 1
+            yield {'part': 'multi-t', 'texts': texts, 'ast': tr, 'tag': 'multi-t-%d-%d' % (gi, k)}
+        ms = core_matchers(texts[0], gi)
+        for k, m in enumerate(ms):
+            if tier == 'quick' and (k + gi) % 3:
+                continue
+            yield {'part': 'multi-m', 'texts': texts, 'ast': m, 'tag': 'multi-m-%d-%d' % (gi, k)}
+    rng = common.rng_for(seed, ID, 'multi')
+    for i in range(60 if tier == 'quick' else 1500):
+        texts = [gen_text(rng) for _ in range(rng.choice((2, 3, 4, 5)))]
+        if rng.random() < 0.6:
+            yield {'part': 'multi-t', 'texts': texts, 'ast': gen_transformer(rng, texts[0], 2), 'tag': 'multi-t-r%d' % i}
+        else:
+            yield {'part': 'multi-m', 'texts': texts, 'ast': gen_matcher(rng, texts[0], 2), 'tag': 'multi-m-r%d' % i}
+
+
+def _uses_external_text(ast):
+    import json as _json
+    j = _json.dumps(ast)
+    return any(w in j for w in ('"file"', '"prog"', '"heredoc"', 'equals'))
+
+
+def run_multi(case, ctx):
+    ses = ctx.get_session()
+    texts = case['texts']
+    ast = case['ast']
+    files = {'d/f%d.txt' % k: t for k, t in enumerate(texts)}
+    env = T.RenderEnv(_probe_tokens)
+    viol, inconc = [], []
+    try:
+        kind = T.TEXT_TRANSFORMER if case['part'] == 'multi-t' else T.TEXT_MATCHER
+        src = T.render(ast, kind, env, 'full')
+    except Exception as ex:
+        return {'classes': [], 'viol': [], 'inconclusive': [], 'evaluations': 0}
+    files.update(getattr(env, 'files', {}) or {})
+    d = ses.new_case_dir(files)
+    rec = os.path.join(d, 'multi-rec.jsonl')
+    if case['part'] == 'multi-t':
+        want = sorted(T.apply_transformer(ast, t) for t in texts)
+        assertion = ('dir-contents d : every file : contents -transformed-by ( %s\n ) ( run %% %s %s %s )' %
+                     (src, probe.PROBE, rec, probe.ctrl(stdin=True)))
+    else:
+        want_true = [k for k, t in enumerate(texts) if T.eval_matcher(ast, t)]
+        assertion = 'dir-contents d : -selection contents ( %s\n ) num-files == %d' % (src, len(want_true))
+    text = '[setup]\ncopy d\n' + ''.join('copy %s\n' % f for f in sorted(getattr(env, 'files', {}) or {})) + \
+        '[act]\n$ true\n[assert]\n' + assertion + '\n'
+    with open(os.path.join(d, 't.case'), 'w', encoding='utf-8', newline='') as f:
+        f.write(text)
+    r = ses.run([os.path.join(d, 't.case')], cwd=d, mode='normal')
+    ctx.count('c05.multi_application_cases')
+    if r.timed_out:
+        inconc.append('watchdog')
+    elif r.exc is not None:
+        viol.append({'what': 'C05 exception escaped', 'detail': {'case_text': text, 'exc': r.exc[-300:]}})
+    elif case['part'] == 'multi-t':
+        if r.rc != 0:
+            # a syntax problem of the rendering is not a verdict; anything else is
+            if r.rc == 65:
+                ctx.count('c05.multi_application_rendering_rejected')
+                inconc.append('multi-t case rejected: ' + r.err[:200])
+            else:
+                viol.append({'what': 'C05 one transformer applied to %d texts by one instruction: outcome %s/%r' %
+                                     (len(texts), r.out.strip(), r.rc), 'detail': {'case_text': text, 'stderr': r.err[:500]}})
+        else:
+            got = sorted(x['stdin'].decode('utf-8', 'replace') for x in probe.read_records(rec))
+            ctx.count('c05.multi_application_outputs', len(got))
+            if got != want:
+                viol.append({'what': 'C05 transformer %s applied to the %d texts %r by ONE instruction gives the outputs '
+                                     '%r, the manual gives %r' % (src.replace('\n', ' '), len(texts), texts, got, want),
+                             'detail': {'case_text': text, 'ast': ast}})
+    else:
+        if r.rc == 65:
+            ctx.count('c05.multi_application_rendering_rejected')
+            inconc.append('multi-m case rejected: ' + r.err[:200])
+        elif not (r.rc == 0 and r.out == 'PASS\n'):
+            viol.append({'what': 'C05 matcher %s applied to the %d texts %r by ONE instruction (-selection contents M): the '
+                                 'manual says it holds for %d of them (%r); `num-files == %d` gives %s' %
+                                 (src.replace('\n', ' '), len(texts), texts, len(want_true), want_true, len(want_true),
+                                  r.out.strip() or r.rc), 'detail': {'case_text': text, 'ast': ast, 'stderr': r.err[:400]}})
+    ses.clean_tmp()
+    ses.drop(d)
+    return {'classes': [(case['part'], T.name_of(ast) if hasattr(T, 'name_of') else str(ast[0]), len(texts))],
+            'viol': viol, 'inconclusive': inconc if len(inconc) and 'watchdog' in inconc[0] else [],
+            'evaluations': len(texts)}
+
+
 def cases(tier, seed):
+    for c in _multi_cases(tier, seed):
+        yield c
     for c in _core_cases():
         yield c
     for c in _seeded_cases(tier, seed):
@@ -796,6 +900,8 @@ def _err_excerpt(o):
 
 
 def run_case(case, ctx):
+    if case.get('part') in ('multi-t', 'multi-m'):
+        return run_multi(case, ctx)
     ses = ctx.get_session()
     text = case['text']
     items = case['items']
